@@ -702,6 +702,13 @@ func equivalents(s spec) []variant {
 	}
 	add(map[int]string{0: "/* c */ "}, nil, nil, "comment", "leading", "mlc", nextOf(0))
 	add(map[int]string{0: "-- c\n"}, nil, nil, "comment", "leading", "dashdash_line", nextOf(0))
+	add(map[int]string{0: "# c\n"}, nil, nil, "comment", "leading", "hash_line", nextOf(0))
+	add(map[int]string{0: " # c\n"}, nil, nil, "comment", "leading", "sp_hash_line", nextOf(0))
+	add(map[int]string{0: "/* c */"}, nil, nil, "comment", "leading", "mlc_tight", nextOf(0))
+	add(map[int]string{0: "/* c */ # c\n"}, nil, nil, "comment", "leading", "mlc_then_hash", nextOf(0))
+	add(map[int]string{0: "# c\n/* c */ "}, nil, nil, "comment", "leading", "hash_then_mlc", nextOf(0))
+	add(map[int]string{0: "-- c\n# c\n"}, nil, nil, "comment", "leading", "dashdash_then_hash", nextOf(0))
+	add(map[int]string{0: "/* c */ -- c\n"}, nil, nil, "comment", "leading", "mlc_then_dashdash", nextOf(0))
 	add(map[int]string{len(toks): " /* c */"}, nil, nil, "comment", "trailing", "mlc", "end")
 	add(map[int]string{len(toks): " -- c"}, nil, nil, "comment", "trailing", "dashdash", "end")
 	add(map[int]string{len(toks): " # c"}, nil, nil, "comment", "trailing", "hash", "end")
@@ -892,6 +899,7 @@ type kase struct {
 	Next    string `json:"next"`
 	Ctx     string `json:"ctx"`
 	Kind    string `json:"kind"`
+	Path    string `json:"path,omitempty"` // "" = direct Namespace.IsSQLAllowed; "query" / "multi" = COM_QUERY through a real session
 }
 
 func mustParse(p *parser.Parser, sql, what string) {
@@ -930,7 +938,7 @@ func judge(r *ev.Run, g *rig, k kase) bool {
 	r.Violation(ev.Witness{
 		Summary: fmt.Sprintf("blacklisted %q: %s variant (%s %s %s) %q %s; fingerprints %q vs %q",
 			k.Base, k.Class, k.Knob, k.Site, k.What, k.Variant, verb, mysql.GetFingerprint(k.Base), mysql.GetFingerprint(k.Variant)),
-		Features: map[string]string{"class": k.Class, "knob": k.Knob, "site": k.Site, "what": k.What, "next": k.Next, "ctx": k.Ctx, "stmt": k.Kind},
+		Features: map[string]string{"class": k.Class, "knob": k.Knob, "site": k.Site, "what": k.What, "next": k.Next, "ctx": k.Ctx, "stmt": k.Kind, "path": "direct"},
 		Case:     k,
 	})
 	return false
@@ -944,9 +952,13 @@ func main() {
 		g := newRig([]string{k.Base})
 		if g.allowed(k.Base) {
 			r.Violation(ev.Witness{Summary: "blacklisted statement itself is allowed: " + k.Base,
-				Features: map[string]string{"class": "identity", "knob": "none", "site": "", "what": "", "next": "", "stmt": k.Kind}, Case: k})
+				Features: map[string]string{"class": "identity", "knob": "none", "site": "", "what": "", "next": "", "stmt": k.Kind, "path": "direct"}, Case: k})
 		}
-		judge(r, g, k)
+		if k.Path != "" {
+			replayQuery(r, g, k)
+		} else {
+			judge(r, g, k)
+		}
 		r.Set("evaluations", 1)
 		r.Finish()
 	}
@@ -975,11 +987,12 @@ func main() {
 		n++
 		if g.allowed(base) {
 			r.Violation(ev.Witness{Summary: "blacklisted statement itself is allowed: " + base,
-				Features: map[string]string{"class": "identity", "knob": "none", "site": "", "what": "", "next": "", "stmt": s.Kind},
+				Features: map[string]string{"class": "identity", "knob": "none", "site": "", "what": "", "next": "", "stmt": s.Kind, "path": "direct"},
 				Case:     kase{Base: base, Variant: base, Class: "equivalent", Kind: s.Kind}})
 		}
 		var passed []variant
-		for _, v := range equivalents(s) {
+		eqs := equivalents(s)
+		for _, v := range eqs {
 			if v.SQL == base {
 				continue
 			}
@@ -998,7 +1011,8 @@ func main() {
 				}
 			}
 		}
-		for _, v := range structurals(s, toks) {
+		sts := structurals(s, toks)
+		for _, v := range sts {
 			mustParse(p, v.SQL, v.Knob+"/"+v.Site+"/"+v.What)
 			n++
 			kk := kase{Base: base, Variant: v.SQL, Class: v.Class, Knob: v.Knob, Site: v.Site, What: v.What, Next: v.Next, Ctx: v.Ctx, Kind: s.Kind}
@@ -1040,6 +1054,10 @@ func main() {
 			n += pairs
 			r.Add("pair_variants", pairs)
 		}
+		// second observation: the same decisions as the client experiences them (COM_QUERY
+		// through Session.Run -> handleQuery -> doQuery / doMultiStmts -> checkSQLAllowed)
+		other := baseSQL[(i+len(baseSQL)/2)%len(baseSQL)]
+		n += queryPath(r, g, s, toks, base, eqs, sts, other, specs[(i+len(baseSQL)/2)%len(baseSQL)])
 		r.Add("evaluations", n)
 		r.Add("bases", 1)
 		r.Distinct("fingerprints", mysql.GetFingerprint(base))
@@ -1065,8 +1083,9 @@ func main() {
 	sort.Strings(kn)
 	r.Set("comment_forms", kn)
 	r.Set("literal_alphabet", litAlphabet)
-	r.Set("rule", "every base statement of the token grammar (SELECT cols x join x 7 WHERE shapes x 5 tails; INSERT/REPLACE 4 forms x 1-2 rows; UPDATE 3 forms; DELETE) is black-listed alone; evaluated: every single-knob equivalent variant (each literal position x literal alphabet, all literals at once, IN length 1/3/5, VALUES rows 1-3, each whitespace gap x 5 whitespace strings and all gaps at once, each optional gap toggled and all at once, leading/trailing whitespace, each keyword x 3 casings and all at once, 7 comment forms at every gap, leading/trailing comments) and every structural mutant (token-level mutants and every other base). distinct_nontrivial = distinct (base, variant text != base) pairs on which the blacklist gave the demanded answer (rejected through a different text / allowed although similar).")
+	r.Set("rule", "every base statement of the token grammar (SELECT cols x join x 7 WHERE shapes x 5 tails; INSERT/REPLACE 4 forms x 1-2 rows; UPDATE 3 forms; DELETE) is black-listed alone; evaluated: every single-knob equivalent variant (each literal position x literal alphabet, all literals at once, IN length 1/3/5, VALUES rows 1-3, each whitespace gap x 5 whitespace strings and all gaps at once, each optional gap toggled and all at once, leading/trailing whitespace, each keyword x 3 casings and all at once, 7 comment forms at every gap, leading/trailing comments) and every structural mutant (token-level mutants and every other base). Second observation (query path): for every base a structured subset (all comment / whitespace forms before the first keyword, between the first keyword and the next token, after the last token; re-casing of the first and of all keywords; one representative of every other knob class; one structural mutant per kind; another base; multi-statement-capable session: base alone, with ';', after '# c\\n', inside two-statement packets) is sent as COM_QUERY through a real Session of a namespace that black-lists the base: equivalent => ERR 'sql in blacklist' and nothing on a backend, mutant => executed (query_path_evaluations). distinct_nontrivial = distinct (base, variant text != base) pairs on which the blacklist gave the demanded answer (rejected through a different text / allowed although similar), direct and query path counted separately.")
 	r.Assume("identifier case is not varied; literal NULL is not used; /*! */ and /*+ */ are not comments")
+	r.Assume("query path: backends are recording fakes that accept every statement; 'executed' means a statement reached a fake backend")
 	r.Assume("every generated statement is accepted by Gaea's own SQL parser (checked at run time, engine error otherwise)")
 	r.Finish()
 }
